@@ -123,6 +123,13 @@ func symSend(fr *frame, pos token.Pos, ch *symchan, v value) {
 	}
 	for {
 		if trySend(fr, ch, v) {
+			// opt-in preemption point: the sender may lose the processor right after its send
+			// completed, while everybody else runs as far as they can (an explored choice)
+			if fr.i.preemptAfterSend && ex.sched != nil && ex.sched.cur != nil && ex.sched.cur.id != 0 && !ch.envDrain {
+				if ex.choice(2) == 1 {
+					ex.yield(fr)
+				}
+			}
 			return
 		}
 		if !ex.yieldBlocked(fr, "send", ch) {
